@@ -1065,7 +1065,7 @@ func (t *objectType) createAttributesInfo() *attributesInfo {
 		for _, key := range t.serialization {
 			av, _ := atMap.Get(key)
 			attr := av.(px.Attribute)
-			if attr.HasValue() {
+			if !(attr.HasValue() || attr.Kind() == givenOrDerived) {
 				nonOptSize++
 			}
 			attrs = append(attrs, attr)
